@@ -110,10 +110,30 @@ func runC13(r *Run) {
 	pi := t.Draw(len(c13Proto))
 	ei := t.Draw(len(c13Ext))
 	mode := modes[t.Draw(3)]
-	if t.Draw(5) >= 3 { // bias random runs towards acceptable responses
+	// random runs: 25% unconstrained (mostly several faults at once), 35% acceptable
+	// responses, 40% acceptable in every dimension but one (a fault is not masked by
+	// another one); enumerated prefixes force 0 here
+	if b := t.Draw(20); b >= 5 {
+		vs, vc, vu, va, vp, ve := si, ci, ui, ai, pi, ei
 		si, ci, ui, ai = 0, ci%3, ui%3, 0
 		pi = pi % 2
 		ei = ei % 5
+		if b >= 12 {
+			switch t.Draw(6) {
+			case 0:
+				si = vs
+			case 1:
+				ci = vc
+			case 2:
+				ui = vu
+			case 3:
+				ai = va
+			case 4:
+				pi = vp
+			case 5:
+				ei = ve
+			}
+		}
 	}
 	fault := t.Weighted(6, 1, 1) // 0 none, 1 cut, 2 stall
 	nSub := t.Draw(3)
